@@ -227,6 +227,16 @@ def check_layout(res, g):
         e_ = g[a:b]
         sub = e_.replace("-", "")
         decide("slice/negative", render(sm, sub) == e_, None, ab=(a, b), got=render(sm, sub), exp=e_)
+    # integer index (negative counts from the end, as for str)
+    for i in range(-L, L):
+        try:
+            sm = m[i]
+        except Exception as e:  # noqa: BLE001
+            res.evals += 1
+            res.witness(exc_mechanism("C08/index-int/" + ("negative" if i < 0 else "non-negative"), e), g=g, i=i, error=repr(e)[:200])
+            continue
+        sub = g[i].replace("-", "")
+        decide("index-int/" + ("negative" if i < 0 else "non-negative"), render(sm, sub) == g[i], None, i=i, got=render(sm, sub), exp=g[i])
     # strides are a documented refusal
     try:
         m[0:L:2]
